@@ -106,7 +106,7 @@ type LinEnv struct {
 	lenSum func(callee *ssa.Function, call *ssa.Call, env *LinEnv) ([]*Lin, bool) // length summaries of repo functions
 	names  map[ssa.Value]string
 	depth  int
-	Extra []Fact // definitional facts of quotient/remainder terms
+	Extra  []Fact // definitional facts of quotient/remainder terms
 }
 
 func NewLinEnv(p *Prog, fn *ssa.Function) *LinEnv {
